@@ -26,11 +26,15 @@ class BrownianHooks(Hooks):
         self.zeros_calls = []
         self.ndim = ndim
         self.warns = 0
+        self.ordering = None     # optional representative values of the scalar symbols (one ordering of the times)
 
     def decide(self, interp, test, env, fi):
         text = ast.unparse(test)
         if text in self.decisions:
             return self.decisions[text]
+        if self.ordering:
+            from ..interp import decide_by_model
+            return decide_by_model(interp, test, env, fi, self.ordering)
         return NotImplemented
 
     def external_call(self, interp, dotted, args, kwargs, node, fi):
@@ -171,13 +175,15 @@ def eval_call(model, n_pieces, have_H, have_A, zero_length=False, return_U=True,
         loc_calls.append(tuple(a))
         return list(pieces)
     last = Obj("last_interval", attrs={"_loc": Intrinsic("_loc", loc)})
-    decisions = {
-        "ta < self._start": False, "tb < self._start": False, "ta > self._end": False, "tb > self._end": False,
-        "ta > tb": False, "tb is None": False,
-        "self._round(ta) == self._round(tb)": zero_length, "ta == tb": zero_length,
-    }
-    hooks = hooks or BrownianHooks(decisions)
-    hooks.decisions.update({k: v for k, v in decisions.items() if k not in hooks.decisions})
+    hooks = hooks or BrownianHooks()
+    # one representative ordering of the times: T0 < ta < u1 < ... < tb < T1 (or ta = tb for the zero-length case)
+    order = {"T0": Fraction(0), "ta": Fraction(1), "T1": Fraction(100), "TOL": Fraction(1, 1000), "DT": Fraction(1, 7),
+             "TREE_DT": Fraction(1)}
+    for i in range(1, n_pieces):
+        order[f"u{i}"] = Fraction(1 + i)
+    order["tb"] = Fraction(1) if zero_length else Fraction(1 + n_pieces)
+    if hooks.ordering is None:
+        hooks.ordering = order
     it = Interp(model, hooks)
     me = Obj("bm", cls=bcls, attrs={
         "_start": nf.sym("T0", True), "_end": nf.sym("T1", True), "_size": SIZE, "_dtype": "dtype",
